@@ -29,7 +29,10 @@ META = {
                   "AUTH_SUCCESS) x protocol version (1-6, DSE_V1, DSE_V2) x subsets of {tracing id, warnings, custom "
                   "payload} x metadata flag subsets x a tour of column type trees, with 2-element value alphabets, "
                   "checks the generator's own consistency, and every generated body is decoded by the real driver and "
-                  "must yield exactly the generated content (and the documented exception with the same fields). "
+                  "must yield exactly the generated content (and the documented exception with the same fields); "
+                  "sequences of rows responses whose same-named UDTs change definition (flat, nested in a UDT, inside "
+                  "list / tuple / map / set) are decoded in order by one process, each against its own expectation "
+                  "(field names and values). "
                   "Exhaustive over the enumerated domain.",
     "level_note": "Trusted: TLC; the transcription of native_protocol_v1-v5.spec into WireResponses.tla; v6 = v5; DSE "
                   "layouts as the driver documents them (continuous paging only without No_metadata / new metadata id); "
@@ -41,9 +44,9 @@ META = {
 }
 
 INVARIANTS = ["BytesOK", "FlagsOK", "PrefixOK", "KindOK", "CodeOK", "RowsFlagsOK"]
-ALL = ["SIMPLE", "ERROR", "EVENT", "ROWS", "PREPARED"]
+ALL = ["SIMPLE", "ERROR", "EVENT", "ROWS", "PREPARED", "EVOLVE"]
 JVM = {"JAVA_TOOL_OPTIONS": "-XX:TieredStopAtLevel=1 -XX:ParallelGCThreads=2 -Xms1g"}      # short runs: no C2 warm-up
-WITNESSES = ["Witness_Warnings", "Witness_ReasonMap", "Witness_MetadataId", "Witness_ContPaging", "Witness_PkIndexes"]
+WITNESSES = ["Witness_Evolution", "Witness_Warnings", "Witness_ReasonMap", "Witness_MetadataId", "Witness_ContPaging", "Witness_PkIndexes"]
 
 
 def runs(ctx):
@@ -60,8 +63,10 @@ def case_key(st):
 
 def family_of(st):
     exp = st["exp"]
+    if st["c"].get("scn"):
+        return "RESULT:rows(type evolution sequence)"
     if exp["cls"] == "RESULT":
-        return "RESULT:" + exp["kind"]
+        return "RESULT:rows" if exp["kind"] == "rows" else "RESULT:" + exp["kind"]
     return exp["cls"]
 
 
@@ -88,6 +93,7 @@ def run(ctx):
     groups = {}
     per_family = {}
     probes = {}
+    sequences = {}         # (pv, scenario) -> responses decoded so far, in order
     undocumented = 0
     for label, consts in runs(ctx):
         cfg = tlc.write_cfg(os.path.join(ctx.scratch, "WireResponses.cfg"), constants=consts, invariants=INVARIANTS, deadlock=False)
@@ -97,12 +103,17 @@ def run(ctx):
             ctx.violation("TLC: invariant %s violated in WireResponses.tla (the reference generator itself is inconsistent)"
                           % res.invariant, replay={"trace": [s for _, s in res.trace()]}, signature="spec:" + str(res.invariant))
             return
+        # responses that form a sequence (EVOLVE) are decoded in the order of the sequence, scenario by scenario;
+        # all cases are decoded by this one process, so whatever the driver caches across responses is in play
+        states.sort(key=lambda s: (s["c"].get("scn", 0) > 0, s["c"]["pv"], s["c"].get("scn", 0), s["c"].get("pos", 0)))
         for st in states:
             if st["phase"] != "case":
                 continue
             fam = family_of(st)
             per_family[fam] = per_family.get(fam, 0) + 1
             keys, summary = wb.judge_response(st)
+            if st["c"].get("scn"):
+                sequences.setdefault((st["c"]["pv"], st["c"]["scn"]), []).append(st)
             ctx.evaluations += 1
             ctx.traces_validated += 1
             if nontrivial(st):
@@ -126,12 +137,13 @@ def run(ctx):
 
     # vacuity: every family produced cases; witnesses reached in TLC
     wanted = ["READY", "AUTHENTICATE", "AUTH_CHALLENGE", "AUTH_SUCCESS", "SUPPORTED", "ERROR", "EVENT", "RESULT:void",
-              "RESULT:rows", "RESULT:set_keyspace", "RESULT:prepared", "RESULT:schema_change"]
+              "RESULT:rows", "RESULT:set_keyspace", "RESULT:prepared", "RESULT:schema_change",
+              "RESULT:rows(type evolution sequence)"]
     missing = [f for f in wanted if not per_family.get(f)]
     if missing:
         raise tlc.MachineryError("vacuity: no case generated for %s" % missing)
     witnesses = WITNESSES[:1] if ctx.quick else WITNESSES
-    wconst = dict(Families={"ERROR", "ROWS", "PREPARED"}, FullFx=set(), Small=True)
+    wconst = dict(Families={"ERROR", "ROWS", "PREPARED", "EVOLVE"}, FullFx=set(), Small=True)
     for w in witnesses:
         wcfg = tlc.write_cfg(os.path.join(ctx.scratch, w + ".cfg"), constants=wconst, invariants=[w], deadlock=False)
         wres = tlc.check_model("WireResponses", wcfg, ctx.scratch, timeout=600, env=JVM)
@@ -165,7 +177,11 @@ def run(ctx):
             what = ("%s decoded with a wrong %s on %s; %d cases, smallest: pv=%s flags=%#x opcode=%#x body=%s: sent %r, decoded %r"
                     % (gkey[1], gkey[2], wb.pv_set(pvs), len(members), c["pv"], c["flags"], c["opcode"], bytes(c["body"]).hex(),
                        summary.get("want", {}).get(field), summary.get("have", {}).get(field, summary)))
-        ctx.violation(what, replay={"state": st, "cases": len(members), "versions": pvs}, signature=sig)
+        rep = {"state": st, "cases": len(members), "versions": pvs}
+        if c.get("scn"):       # the responses decoded before it in its sequence are part of the failing input
+            rep["sequence"] = [x for x in sequences[(c["pv"], c["scn"])] if x["c"]["pos"] <= c["pos"]]
+            what += "; decoded after %d earlier response(s) of the same sequence carrying other definitions of the same-named type" % (len(rep["sequence"]) - 1)
+        ctx.violation(what, replay=rep, signature=sig)
     ctx.assumptions += ["v6 = v5 layout (no separate document)",
                         "DSE_V1/DSE_V2 layouts as documented by the driver itself; continuous-paging pages only without "
                         "No_metadata / new metadata id",
@@ -176,6 +192,9 @@ def run(ctx):
 
 def replay(ctx, obj):
     st = obj["state"]
+    for prior in obj.get("sequence", [])[:-1]:            # re-create what the process had decoded before
+        k, _ = wb.judge_response(prior)
+        print("earlier response pos=%s: %s" % (prior["c"]["pos"], "as sent" if not k else "deviates %s" % (k,)))
     keys, summary = wb.judge_response(st)
     c = st["c"]
     print("case: pv=%s flags=%#x opcode=%#x stream=%s body=%s" % (c["pv"], c["flags"], c["opcode"], c["stream"], bytes(c["body"]).hex()))
